@@ -1384,6 +1384,8 @@ where
     }
 
     fn process_line(&mut self, line: &[u8]) {
+        #[cfg(comrak_verif)]
+        crate::verif::log_line(line);
         let mut new_line: Vec<u8>;
         let line = if line.is_empty() || !strings::is_line_end_char(*line.last().unwrap()) {
             new_line = line.into();
